@@ -62,10 +62,10 @@ RULE = ("cases are input files: every seed with 0, 1 and (small seeds) 2 deviati
         "line feed / carriage return / control character / mark-up character / non-ASCII / longer than 1000); counters report reader "
         "executions, downstream executions and documents skipped as duplicates")
 BOUNDS = {
-  "quick": "grammar seeds 3 SRT, 3 WebVTT, 4 SCC (+ text_align=right on line tokens), 3 EBU STL (reader cfg none: all tokens; cfg TCP+MNR: fields and "
+  "quick": "grammar seeds 3 SRT, 3 WebVTT, 4 SCC (+ text_align=right on line tokens), 3 EBU STL (reader cfg none: all tokens; cfg TCP+MNR: GSI fields and "
            "blocks), 5 TTML: 0 and 1 deviation at every token (line and word tokenisations; GSI/TTI fields, TF bytes, blocks, cuts; elements, "
            "attributes, text positions, lexical tokens); TTML attribute values from the boundary values + the VERIF_SEED-selected quarter of the "
-           "199 typed pool values; 2 deviations: line tokenisations of <= 5 lines and the smallest TTML seed (light menu). Token strings of length "
+           "199 typed pool values; 2 deviations: line tokenisations of <= 4 lines and the smallest TTML seed (light menu). Token strings of length "
            "<= 3: SRT / WebVTT line alphabets (with and without final EOL) and inline alphabets inside a cue, SCC line and CEA-608 word alphabets, "
            "STL TTI-block alphabet (2 GSI/cfg contexts), TTML element chains in 6 contexts; TTML host x attribute x value product: 52 attribute "
            "names x (tt host: all 206 pool values; 11 other hosts: the VERIF_SEED-selected third of the pool). Corpus (3 SCC, 50 STL, 4 TTML, 132 VTT files), "
@@ -594,7 +594,7 @@ def _pool(tier, seed):
 
 def seed_families(tier, seed):
   thorough = tier == "thorough"
-  pairs_tok = 12 if thorough else 5
+  pairs_tok = 12 if thorough else 4
   fams = []
   for fmt, seeds in (("srt", g.SRT_SEEDS), ("vtt", g.VTT_SEEDS), ("scc", g.SCC_SEEDS)):
     spaces = g.text_spaces(fmt, seeds, pairs_tok)
@@ -610,23 +610,23 @@ def seed_families(tier, seed):
   stl_spaces = []
   for nm, data in g.STL_SEEDS.items():
     stl_spaces.append(g.StlSpace(nm, data, 0))
-    stl_spaces.append(g.StlSpace(nm, data, 1, only=None if thorough else "fields"))
+    stl_spaces.append(g.StlSpace(nm, data, 1, only=None if thorough else "gsi"))
     if thorough:
       stl_spaces.append(g.StlSpace(nm, data, 2, only="fields"))
   if thorough:
     stl_spaces.append(g.StlSpace("stl-1tti/fields", g.STL_SEEDS["stl-1tti"], 0, pairs=True, tf_bytes=False))
   fams.append(_union("dev[stl seeds]", stl_spaces,
                      "GSI fields, TTI fields, TF bytes, 128-byte blocks, cuts at every block boundary / +1 / +64; reader cfg none (all tokens), "
-                     "cfg TCP+MNR (" + ("all tokens" if thorough else "GSI/TTI fields and blocks") + ")"
+                     "cfg TCP+MNR (" + ("all tokens" if thorough else "GSI fields and blocks") + ")"
                      + ("; cfg start 10:00:00:00 + 11 rows (fields); 2 deviations over the fields of the smallest seed" if thorough else "")))
   # TTML structural
   pool, pool_note = _pool(tier, seed)
   xs = []
   for nm, tree in g.TTML_SEEDS.items():
-    xs.append(g.XmlSpace(nm, tree, pairs=(nm == "ttml-min" or (thorough and nm == "ttml-seq")), value_pool=pool))
+    xs.append(g.XmlSpace(nm, tree, pairs=(nm == "ttml-min" or (thorough and nm == "ttml-seq")), value_pool=pool, rename_attrs=(thorough or nm != "ttml-full")))
   fams.append(_union("dev[ttml seeds]", xs,
                      "elements: remove / duplicate / swap / unwrap / truncate / rename / nest 60 and 1500 deep / insert text; attributes: delete / rename to every "
-                     f"other attribute name / replace by every value of: {pool_note} ({len(pool)} values) / add; 2 deviations over the light menu for "
+                     f"other attribute name{'' if thorough else ' (not on ttml-full in the quick tier)'} / replace by every value of: {pool_note} ({len(pool)} values) / add; 2 deviations over the light menu for "
                      + ("ttml-min and ttml-seq" if thorough else "ttml-min")))
   lex = []
   for nm, tree in g.TTML_SEEDS.items():
@@ -657,7 +657,7 @@ def corpus_families(tier, seed):
       wpt = "wpt-tests" in rel
       big = len(wt) > 100
       if wpt:
-        sel = k % 8 == seed % 8 if thorough else k % 32 == seed % 32
+        sel = k % 8 == seed % 8 if thorough else k % 64 == seed % 64
         if thorough or sel:
           spaces.append(g.DevSpace(rel + "/lines", fmt, lt))
           nfull += 1
@@ -671,9 +671,9 @@ def corpus_families(tier, seed):
                     "word tokens not deviated")
       elif not thorough:
         spaces.append(g.DevSpace(rel + "/lines", fmt, lt))
-        sel_pos = [i for i in range(len(wt)) if i % 4 == seed % 4]
+        sel_pos = [i for i in range(len(wt)) if i % 8 == seed % 8]
         spaces.append(g.DevSpace(rel + "/words", fmt, wt, positions=sel_pos))
-        caps.append(f"{rel}: the VERIF_SEED-selected quarter of the word tokens ({len(sel_pos)} of {len(wt)})")
+        caps.append(f"{rel}: the VERIF_SEED-selected eighth of the word tokens ({len(sel_pos)} of {len(wt)})")
       else:
         spaces.append(g.DevSpace(rel + "/lines", fmt, lt))
         spaces.append(g.DevSpace(rel + "/words", fmt, wt))
@@ -682,7 +682,7 @@ def corpus_families(tier, seed):
       note += ("every line and word token of the 4 ttconv files; every line token of the 128 wpt-tests files; CAP: word tokens of the "
                "VERIF_SEED-selected eighth of the wpt-tests files")
     elif fmt == "vtt":
-      note += (f"every line token of the 4 ttconv files; CAP: of the 128 wpt-tests files the VERIF_SEED-selected 1/32 ({nfull} files) gets every line "
+      note += (f"every line token of the 4 ttconv files; CAP: of the 128 wpt-tests files the VERIF_SEED-selected 1/64 ({nfull} files) gets every line "
                "token deviated, the others are read unchanged, their word tokens only in the thorough tier; " + "; ".join(caps))
     else:
       note += "every line token of every file" + ("; every word token of every file" if thorough else "; CAP: " + "; ".join(caps))
@@ -695,12 +695,12 @@ def corpus_families(tier, seed):
       if thorough:
         spaces.append(g.StlSpace(rel, data, 0, tf_bytes=True))
         continue
-      full = k % 8 == seed % 8
+      full = k % 16 == seed % 16
       nfull += full
       spaces.append(g.StlSpace(rel, data, 0, tf_bytes=False, only=None if full else "none"))
     note = f"{len(by['stl'])} bundled files; 0 and 1 deviation; every block-level deviation and cut (block boundary, +1, +64) of every file; "
     note += ("every GSI field, TTI field and TF byte of every file" if thorough else
-             f"CAP: GSI and TTI fields on the VERIF_SEED-selected eighth ({nfull} files), TF fields deviated as a whole; byte by byte and all files "
+             f"CAP: GSI and TTI fields on the VERIF_SEED-selected sixteenth ({nfull} files), TF fields deviated as a whole; byte by byte and all files "
              "only in the thorough tier")
     fams.append(_union("dev[stl corpus]", spaces, note))
   if by.get("ttml"):
